@@ -11,7 +11,8 @@ from common import f2h
 
 SITES = ['scorer_pcfg_parse', 'scorer_mw', 'kw_detect', 'email_detect', 'web_detect', 'year_detect', 'ctx_detect', 'alpha_detect',
          'digit_detect', 'other_list', 'mw_parse', 'base_structure']
-TRUSTED = ['the scorer multiplies the same factors as the guesser but in a different order: equality of the two probabilities is exact over '
+TRUSTED = ['hypotheses of C13_promise that are not theorems: Agree (guesser view and scorer tables come from the same files: the terminal clause is derived from the C07 round trips by C13_same_files, the base-structure clause rests on the loader correspondence of C14), CaseInvAll (domain clause: one-to-one case mapping on the password), ScalarCPs (no lone surrogate in the password), probabilities as elements of a commutative monoid (exact arithmetic)',
+           'the scorer multiplies the same factors as the guesser but in a different order: equality of the two probabilities is exact over '
            'the rationals and within n ulp over doubles (the harness allows a relative difference of 1e-12)',
            'CPython Unicode database (parameters of the detector model)']
 ASSUMPTIONS = ['ruleset produced by the trainer']
